@@ -174,6 +174,9 @@ class C18(spec.Spec):
             ]
         ops += [("addrec", "D", "B1", 0), ("addrec", "B1", "D", 0), ("addrec", "B1", "D", 1), ("upd", "D", "B1")]
         ops += [("at", ("A", "k", Q("ex")), "s_a")]
+        # look-ups in the middle of the history, also of names that (still) denote nothing there
+        ops += [("getx", "D", ("A", "x", BARE)), ("getx", "D", ("A", "y", BARE)), ("getx", "B1", ("A", "y", BARE)),
+                ("getx", "B1", ("B", "x", BARE)), ("getx", "D", ("A", "x", S("ex")))]
         self.alphabet = ops
         self.pairs = tier == "thorough"
 
